@@ -360,6 +360,94 @@ theorem capsuleCapsule3_spec (hs : LawfulSqrt sq) (ulps : K → K → Bool) (pos
 
 example : UnitQ (⟨0, 0, 0, 1, ⟨3, 0, 0⟩⟩ : Iso3 ℚ) := by simp [UnitQ]
 
+/-! ## `PolygonalFeature::contacts` for two edges -/
+
+private theorem segSegParams2_range' (ulps : K → K → Bool) (a1 b1 a2 b2 : V2 K) :
+    letI := fieldNum K sq
+    (0 ≤ (segSegParams2 ulps a1 b1 a2 b2).1 ∧ (segSegParams2 ulps a1 b1 a2 b2).1 ≤ 1) ∧
+    (0 ≤ (segSegParams2 ulps a1 b1 a2 b2).2 ∧ (segSegParams2 ulps a1 b1 a2 b2).2 ≤ 1) := by
+  have z : (0 : K) ≤ 0 ∧ (0 : K) ≤ 1 := ⟨le_rfl, zero_le_one⟩
+  have o : (0 : K) ≤ 1 ∧ (1 : K) ≤ 1 := ⟨zero_le_one, le_rfl⟩
+  simp only [segSegParams2]
+  split_ifs
+  · exact ⟨z, z⟩
+  · exact ⟨z, clamp01_range' sq _⟩
+  · exact ⟨clamp01_range' sq _, z⟩
+  · exact ⟨clamp01_range' sq _, z⟩
+  · exact ⟨clamp01_range' sq _, o⟩
+  · exact ⟨clamp01_range' sq _, not_lt.mp (by assumption), not_lt.mp (by assumption)⟩
+  · exact ⟨clamp01_range' sq _, z⟩
+  · exact ⟨clamp01_range' sq _, o⟩
+  · exact ⟨z, not_lt.mp (by assumption), not_lt.mp (by assumption)⟩
+
+private theorem act_invAct3 (m : Iso3 K) (hq : UnitQ m) (y : V3 K) :
+    letI := fieldNum K sq; m.act (m.invAct y) = y := by
+  simp only [Iso3.act, Iso3.invAct]
+  rw [rot_invRot3 sq m _ hq]
+  apply V3.ext' <;> simp only [V3.add, V3.sub] <;> ring
+
+/-- the property's per-contact clause for an edge/edge contact (unflipped): witness 1 on edge 1, witness 2 on edge 2 (in
+the frame of shape 2), `dist = (pos12·local_p2 − local_p1)·sep_axis1` -/
+def EdgeContactGood (pos12 : Iso3 K) (e1a e1b e2a e2b sep : V3 K) (c : Contact3 K) : Prop :=
+  letI := fieldNum K sq
+  (Segment3.mk e1a e1b).Mem c.p1 ∧ (Segment3.mk e2a e2b).Mem c.p2 ∧ c.dist = ((pos12.act c.p2).sub c.p1).dot sep
+
+private theorem edgeEdgeClip3_good (pos12 : Iso3 K) (hq : UnitQ pos12) (e1a e1b e2a e2b sep : V3 K) :
+    letI := fieldNum K sq
+    ∀ c ∈ edgeEdgeClip3 pos12 e1a e1b (pos12.act e2a) (pos12.act e2b) sep false,
+      EdgeContactGood sq pos12 e1a e1b e2a e2b sep c ∧ ((pos12.act c.p2).sub c.p1).dot (e1b.sub e1a) = 0 := by
+  intro c hc
+  simp only [edgeEdgeClip3] at hc
+  split at hc
+  · rename_i ca cb hcl
+    obtain ⟨ga, gb⟩ := clipSegSeg3_spec sq e1a e1b _ _ ca cb hcl
+    simp only [List.mem_cons, List.not_mem_nil, or_false, Contact3.flipped, Bool.not_false, if_true] at hc
+    rcases hc with rfl | rfl
+    · refine ⟨⟨ga.1, seg3_mem_invAct sq pos12 hq _ _ _ ga.2.1, ?_⟩, ?_⟩
+      · simp only []; rw [act_invAct3 sq pos12 hq]
+      · simp only []; rw [act_invAct3 sq pos12 hq]; exact ga.2.2
+    · refine ⟨⟨gb.1, seg3_mem_invAct sq pos12 hq _ _ _ gb.2.1, ?_⟩, ?_⟩
+      · simp only []; rw [act_invAct3 sq pos12 hq]
+      · simp only []; rw [act_invAct3 sq pos12 hq]; exact gb.2.2
+  · simp at hc
+
+/-- **C14, pfm/pfm edge–edge contacts (`PolygonalFeature::contacts` on two edges).**  For EVERY basis function, every
+`ulps_eq` predicate, every separating axis and all edges (unequal lengths, parallel, anti-parallel, crossed, degenerate
+projections): at most two contacts are produced, and each has its first witness on edge 1, its second witness on edge 2
+(expressed in the frame of shape 2) and `dist = (pos12·local_p2 − local_p1)·sep_axis1`. -/
+theorem edgeEdge3_spec (basis : V3 K → V3 K × V3 K) (ulps : K → K → Bool) (pos12 : Iso3 K) (hq : UnitQ pos12)
+    (e1a e1b e2a e2b sep : V3 K) :
+    letI := fieldNum K sq
+    (edgeEdge3 basis ulps pos12 e1a e1b e2a e2b sep false).length ≤ 2 ∧
+    ∀ c ∈ edgeEdge3 basis ulps pos12 e1a e1b e2a e2b sep false, EdgeContactGood sq pos12 e1a e1b e2a e2b sep c := by
+  have hclip := edgeEdgeClip3_good sq pos12 hq e1a e1b e2a e2b sep
+  have hlen : (@edgeEdgeClip3 K (fieldNum K sq) pos12 e1a e1b (@Iso3.act K (fieldNum K sq) pos12 e2a)
+      (@Iso3.act K (fieldNum K sq) pos12 e2b) sep false).length ≤ 2 := by
+    simp only [edgeEdgeClip3]; split <;> simp
+  simp only [edgeEdge3]
+  split
+  · split_ifs
+    · exact ⟨hlen, fun c hc => (hclip c hc).1⟩
+    · refine ⟨by simp, ?_⟩
+      intro c hc
+      simp only [List.mem_singleton, Contact3.flipped, Bool.not_false, if_true] at hc
+      subst hc
+      obtain ⟨⟨s0, s1⟩, ⟨t0, t1⟩⟩ := segSegParams2_range' sq ulps
+        (⟨@V3.dot K (fieldNum K sq) e1a (basis sep).1, @V3.dot K (fieldNum K sq) e1a (basis sep).2⟩ : V2 K)
+        ⟨@V3.dot K (fieldNum K sq) e1b (basis sep).1, @V3.dot K (fieldNum K sq) e1b (basis sep).2⟩
+        ⟨@V3.dot K (fieldNum K sq) (@Iso3.act K (fieldNum K sq) pos12 e2a) (basis sep).1, @V3.dot K (fieldNum K sq) (@Iso3.act K (fieldNum K sq) pos12 e2a) (basis sep).2⟩
+        ⟨@V3.dot K (fieldNum K sq) (@Iso3.act K (fieldNum K sq) pos12 e2b) (basis sep).1, @V3.dot K (fieldNum K sq) (@Iso3.act K (fieldNum K sq) pos12 e2b) (basis sep).2⟩
+      refine ⟨baryPoint3_mem sq _ _ _ s0 s1, seg3_mem_invAct sq pos12 hq _ _ _ (baryPoint3_mem sq _ _ _ t0 t1), ?_⟩
+      simp only []; rw [act_invAct3 sq pos12 hq]
+  · exact ⟨hlen, fun c hc => (hclip c hc).1⟩
+
+/-- in the conformal (two-contact) branch the witnesses of each contact face each other across edge 1 -/
+theorem edgeEdgeClip3_aligned (pos12 : Iso3 K) (hq : UnitQ pos12) (e1a e1b e2a e2b sep : V3 K) :
+    letI := fieldNum K sq
+    ∀ c ∈ edgeEdgeClip3 pos12 e1a e1b (pos12.act e2a) (pos12.act e2b) sep false,
+      ((pos12.act c.p2).sub c.p1).dot (e1b.sub e1a) = 0 :=
+  fun c hc => (edgeEdgeClip3_good sq pos12 hq e1a e1b e2a e2b sep c hc).2
+
 /-! ## the sub-detector bookkeeping of `contact_manifolds_composite_shape_composite_shape`
 
 Same statements as for `contact_manifolds_composite_shape_shape` (Theorems.lean), over an arbitrary key type `κ`
